@@ -69,6 +69,19 @@ def run(ctx):
                            % en[3:], ok, e, "" if ok else "the upgrade script runs on a path "
                            "on which no backup of the old file was taken",
                            None if ok else render_path(p.events))
+            # R20.retry: what an interrupted upgrade leaves on disk is the backup
+            # and the (transactionally unchanged) database -- any other file
+            # it creates or moves is still there when the server is started again
+            if any(k == "script" and _is_upgrade_script(e) for (k, e, _l) in fs):
+                others = [(k, e) for (k, e, _l) in fs if k in ("fsother", "rename", "mkstemp")]
+                ctx.ob("R20.retry", "%s: an upgrade touches no file but the database and its "
+                       "backup" % en[3:], not others, others[0][1] if others else p.events[-1],
+                       "" if not others else "the upgrade path also does %s(%s): a crash "
+                       "during the upgrade leaves that behind, and the retry starts from a "
+                       "directory the first attempt did not see" % (
+                           others[0][1].get("name", others[0][0]),
+                           ", ".join(show(a)[:30] for a in others[0][1].get("args", ())[:2])),
+                       render_path(p.events) if others else None)
             # R20.loop
             for e, loops in all_events(p, ("loop",)):
                 if e["func"] != "_get_db":
